@@ -14,6 +14,36 @@ CHECKS = {
         text="Generated-input search (thousands of configurations per run over the component/option/bias tables) against a finite-difference oracle computed from the energy the engine receives; catches any force/energy inconsistency above ~1e-6..1e-3 relative in the explored class, establishes nothing outside it.",
         note="Trusts the engine simulator (checks/../engine/vproxy.cpp), finite differences (errors below ~1e-6 relative are invisible), generated geometries away from singular points (detected kinks are counted, not asserted).",
         design="DESIGN.md section 4 C01"),
+    "C02": dict(
+        technique="property-based testing (Hypothesis): independent numpy reference model of each documented formula + metamorphic relations (rigid motion, lattice translation, permutation/duplicates, quaternion sign, least-squares optimality)",
+        level="exploration",
+        text="Thousands of generated systems/variables per run compared with an independent implementation (Kabsch/SVD for fitted quantities) and under generated symmetry transformations; finds value errors above 1e-9 (1e-7 fitted) in the explored component/option table.",
+        note="Trusts the reference model (checks/lib/refmodel.py, written from the manual) and the engine simulator; path/protein components are not in the table.",
+        design="DESIGN.md section 4 C02"),
+    "C04": dict(
+        technique="model-based property testing (Hypothesis): Python model of the ABF estimator co-evaluated on generated value/force histories under both force-timing conventions",
+        level="exploration",
+        text="Generated histories (values entering/leaving the grid, system forces, other biases, run boundaries) against an executable model: applied force at every step and the samples/gradient arrays of the saved state; exact counts, rel 1e-10 forces.",
+        note="Controlled variables (z of one atom; no Jacobian term); model written from the manual and property text; eABF/CZAR/pABF not modelled.",
+        design="DESIGN.md section 4 C04"),
+    "C05": dict(
+        technique="model-based property testing (Hypothesis): reference model of hill deposition/tabulation compared with bias energy and forces at every step",
+        level="exploration",
+        text="Generated trajectories incl. excursions beyond the grid, hill schedules, well-tempered heights, grids on/off, delayed tabulation, keepHills, expandBoundaries; energy and per-variable force compared at every step (rel 1e-9; 2e-4*sum(W) outside the grid where the code truncates Gaussian tails).",
+        note="Controlled scalar variables (1-2); non-scalar variables and rebinning on restart are not in this check; hill widths >= one grid spacing.",
+        design="DESIGN.md section 4 C05"),
+    "C06": dict(
+        technique="property-based testing (Hypothesis): closed-form potentials, schedule as a function of the step number recovered from energy+force, work/TI recomputed from the trace, cut-and-restart differential",
+        level="exploration",
+        text="Potentials of harmonic/walls/linear over every value type and the ABMD ratchet against the manual's closed forms; centre/force-constant schedules (continuous, staged, lambdaSchedule, decoupling, exponent) at every step; accumulated work; staged TI means; independence from run segmentation via restart at a generated step.",
+        note="Schedules exercised on a controlled scalar variable; the phase of the TI equilibration window is accepted in either of the two readings the manual allows.",
+        design="DESIGN.md section 4 C06"),
+    "C18": dict(
+        technique="property-based testing (rapidcheck, direct API): metric axioms, tangent-space finite differences, closed-form minimum image, wrap interval",
+        level="exploration",
+        text="Millions of generated value pairs per run for every value type and for periodic variables built through the configuration path (component period and scripted period with wrapAround); asserts the stated metric/gradient/wrap/interpolation laws.",
+        note="Gradients compared away from the cut locus; distinct_nontrivial counts generated real-valued pairs (practically all distinct).",
+        design="DESIGN.md section 4 C18", engine="rapidcheck targets (rc/)"),
 }
 
 PENDING_REASON = "check under construction in this session; not claimed until it runs green on the unchanged tree"
